@@ -14,12 +14,12 @@ import (
 type c13Case struct {
 	name    string
 	run     func(db *gorm.DB) *gorm.DB
-	records []string   // names of the in-memory records the hooks apply to
-	phases  [][]string // hook names per phase, "stmt" marks the statement
-	prefix  string     // hook name prefix of the records ("" or "Boss.")
-	valAt   int        // index of the bound Val argument in the main statement (-1: none)
-	table   string     // table of the records' statement when they are not the operation's own model
-	batched bool       // several main statements (CreateInBatches): hooks are not ordered around the first one
+	records []string                 // names of the in-memory records the hooks apply to
+	phases  [][]string               // hook names per phase, "stmt" marks the statement
+	prefix  string                   // hook name prefix of the records ("" or "Boss.")
+	valAt   int                      // index of the bound Val argument in the main statement (-1: none)
+	table   string                   // table of the records' statement when they are not the operation's own model
+	batched bool                     // several main statements (CreateInBatches): hooks are not ordered around the first one
 	query   func(text string) RowSet // rows per query text (nil: the records under test)
 }
 
@@ -133,13 +133,13 @@ func c13Cases() []c13Case {
 		// children loaded by Preload: AfterFind once per loaded child record
 		c13Case{name: "find-preload-has-many", records: []string{"b1", "b2", "b3"}, phases: findPhases, prefix: "Book.", valAt: -1, table: "hbooks",
 			query: c13ShelfRows,
-			run: func(db *gorm.DB) *gorm.DB { var r []HShelf; return db.Preload("Books").Find(&r) }},
+			run:   func(db *gorm.DB) *gorm.DB { var r []HShelf; return db.Preload("Books").Find(&r) }},
 		c13Case{name: "first-preload-has-many", records: []string{"b1", "b2", "b3"}, phases: findPhases, prefix: "Book.", valAt: -1, table: "hbooks",
 			query: c13ShelfRows,
-			run: func(db *gorm.DB) *gorm.DB { var r HShelf; return db.Preload("Books").First(&r) }},
+			run:   func(db *gorm.DB) *gorm.DB { var r HShelf; return db.Preload("Books").First(&r) }},
 		c13Case{name: "find-preload-shared-belongs-to", records: []string{"b1", "b2"}, phases: findPhases, prefix: "Book.", valAt: -1, table: "hbooks",
 			query: c13ShelfRows,
-			run: func(db *gorm.DB) *gorm.DB { var r []*HBookmark; return db.Preload("Book").Find(&r) }},
+			run:   func(db *gorm.DB) *gorm.DB { var r []*HBookmark; return db.Preload("Book").Find(&r) }},
 		c13Case{name: "skiphooks-create", records: nil, phases: nil, valAt: -1,
 			run: func(db *gorm.DB) *gorm.DB {
 				r := c13Recs(2)
